@@ -79,7 +79,7 @@ Proof. intros d vs H. unfold linearize. rewrite H. reflexivity. Qed.
 
 (* ------------------------------------------------------------------------------------------ disjoint union *)
 Open Scope Qc_scope.
-Definition dC : circ := {| ks := []; cs := []; x0 := []; edges := [] |}.
+Definition dC : circ := {| ks := []; cs := []; x0 := []; edges := []; uin := [] |}.
 
 Lemma ginsum_app : forall a b X blk i, ginsum (a ++ b) X blk i = ginsum a X blk i + ginsum b X blk i.
 Proof.
@@ -127,36 +127,36 @@ Qed.
 
 (* no edge between sub-circuits: the derivative of every variable of sub-circuit b is that of the stand-alone
    circuit b evaluated on block b of the state — whatever the other blocks contain *)
-Theorem disjoint_union : forall Cs X b i, (b < length Cs)%nat ->
-  nderiv (assemble Cs) X b i = deriv (nth b Cs dC) (nth b X []) i.
+Theorem disjoint_union : forall Cs j X b i, (b < length Cs)%nat ->
+  nderiv (assemble Cs) j X b i = deriv (nth b Cs dC) j (nth b X []) i.
 Proof.
-  intros Cs X b i Hb. unfold nderiv, deriv, assemble. cbn [comps gedges]. fold dC.
+  intros Cs j X b i Hb. unfold nderiv, deriv, assemble. cbn [comps gedges]. fold dC.
   rewrite ginsum_tagged. cbn [plus]. rewrite Nat.sub_0_r.
   replace (Nat.leb 0 b && Nat.ltb b (length Cs)) with true; [reflexivity|].
   symmetry. apply andb_true_iff. split; [reflexivity | apply Nat.ltb_lt; exact Hb].
 Qed.
 
-Lemma neuler_block : forall dt Cs X b, length X = length Cs -> (b < length Cs)%nat ->
-  nth b (neuler_step dt (assemble Cs) X) [] = euler_step dt (nth b Cs dC) (nth b X []).
+Lemma neuler_block : forall dt Cs j X b, length X = length Cs -> (b < length Cs)%nat ->
+  nth b (neuler_step dt (assemble Cs) j X) [] = euler_step dt (nth b Cs dC) j (nth b X []).
 Proof.
-  intros dt Cs X b HL Hb. unfold neuler_step.
-  rewrite (nth_indep _ [] ((fun b0 => map (fun i => nth i (nth b0 X []) 0 + dt * nderiv (assemble Cs) X b0 i)
+  intros dt Cs j X b HL Hb. unfold neuler_step.
+  rewrite (nth_indep _ [] ((fun b0 => map (fun i => nth i (nth b0 X []) 0 + dt * nderiv (assemble Cs) j X b0 i)
                                          (seq 0 (length (nth b0 X [])))) 0%nat))
     by (rewrite map_length, seq_length; lia).
-  rewrite (map_nth (fun b0 => map (fun i => nth i (nth b0 X []) 0 + dt * nderiv (assemble Cs) X b0 i)
+  rewrite (map_nth (fun b0 => map (fun i => nth i (nth b0 X []) 0 + dt * nderiv (assemble Cs) j X b0 i)
                                   (seq 0 (length (nth b0 X [])))) (seq 0 (length X)) 0%nat b).
   rewrite seq_nth by lia. cbn [plus]. unfold euler_step. apply map_ext. intro i.
   rewrite disjoint_union by exact Hb. reflexivity.
 Qed.
 
-Lemma neuler_length : forall dt N X, length (neuler_step dt N X) = length X.
+Lemma neuler_length : forall dt N j X, length (neuler_step dt N j X) = length X.
 Proof. intros. unfold neuler_step. rewrite map_length, seq_length. reflexivity. Qed.
 
 (* compositionality over time: block b of the assembled trajectory is the trajectory of circuit b on its own *)
-Theorem union_trajectory : forall dt Cs n X j b, length X = length Cs -> (b < length Cs)%nat ->
-  nth b (nth j (ntraj dt (assemble Cs) X n) []) [] = nth j (traj dt (nth b Cs dC) (nth b X []) n) [].
+Theorem union_trajectory : forall dt Cs n X j0 j b, length X = length Cs -> (b < length Cs)%nat ->
+  nth b (nth j (ntraj dt (assemble Cs) X j0 n) []) [] = nth j (traj dt (nth b Cs dC) (nth b X []) j0 n) [].
 Proof.
-  intros dt Cs. induction n as [|n IH]; intros X j b HL Hb.
+  intros dt Cs. induction n as [|n IH]; intros X j0 j b HL Hb.
   - cbn. destruct j; destruct b; reflexivity.
   - cbn [ntraj traj]. destruct j as [|j]; [reflexivity|]. cbn [nth].
     rewrite IH by (rewrite ?neuler_length; assumption).
